@@ -18,7 +18,7 @@ import subprocess
 import sys
 import time
 
-from . import core
+from . import core, reach
 from .core import OK, VIOLATION, HARNESS_ERROR
 
 PROPS = ("C08", "C10", "C13", "C14", "C16", "C17")
@@ -59,6 +59,7 @@ def worker_main(argv):
         pass
     prop = load_prop(a.prop)
     prop.init_zygote()
+    reach.worker_init(core.AK_REPO)
     out = sys.stdout
     stats = {}
     n = 0
@@ -84,6 +85,7 @@ def worker_main(argv):
         if n % 50 == 0:
             out.flush()
         i += a.stride
+    reach.worker_dump(a.prop)
     meta = prop.batch_meta() if hasattr(prop, "batch_meta") else {}
     out.write(json.dumps({"done": True, "stats": stats, "n": n, "meta": meta}) + "\n")
     out.flush()
